@@ -160,6 +160,10 @@ type roCase struct {
 	Ops    [][]roOp // per goroutine
 	Paths  []*gpb.Path
 	PathID []string
+	// Dangling: M holds a leafref leaf whose target set is empty
+	Dangling bool
+	// EmptySet: ... and nothing exists at the path it points to
+	EmptySet bool
 }
 
 var roKinds = []string{"Validate", "EmitJSON", "Marshal7951", "TogNMINotifications", "GetNode", "Diff", "DeepCopy", "EncodeTypedValue", "Validate", "GetNode"}
@@ -176,6 +180,54 @@ func genROCase(rt *rapid.T) *roCase {
 		c.MB = overlay(c.M, model.GenTree(rt, c.V, model.GenOpts{NoUnkeyed: true}))
 	default:
 		c.MB = model.GenTree(rt, c.V, model.GenOpts{NoUnkeyed: true, MaxList: 2})
+	}
+	// one shared tree in two (where the variant has a suitable leafref) is not valid: a leafref leaf points at nothing, so every Validate of it takes
+	// the error-reporting paths (and fails the same way in every goroutine)
+	if rapid.Bool().Draw(rt, "dangling") {
+		var cands []model.Inst
+		empty := rapid.IntRange(0, 2).Draw(rt, "emptyset") > 0
+		for _, in := range model.Instances(c.M, nil, model.InstOpts{}) {
+			if in.F.Kind == model.FLeaf && !in.F.IsKey && in.F.Type != nil && in.F.Type.Leafref != "" && (empty || in.V.K == model.KStr || in.V.K.Signed() || in.V.K.Unsigned()) {
+				cands = append(cands, in)
+			}
+		}
+		if len(cands) > 0 {
+			x := cands[rapid.IntRange(0, len(cands)-1).Draw(rt, "dangle")]
+			if empty {
+				// the reference keeps its value and every node it could point at is removed (key leaves
+				// cannot be removed on their own: such references get the other treatment)
+				all := model.Instances(c.M, nil, model.InstOpts{})
+				tg := model.LeafrefTargetInsts(all, x)
+				if len(tg) > 0 {
+					for _, y := range tg {
+						switch {
+						case y.F.IsKey:
+							dropListHolding(c.M, y.Owner)
+						case y.F.Kind == model.FLeafList:
+							delete(y.Owner.LL, y.F.Name)
+						default:
+							delete(y.Owner.Leaf, y.F.Name)
+						}
+					}
+					// x itself may have gone with a list; the tree must still hold a reference that dangles
+					if len(model.Dangling(c.M)) > 0 {
+						c.Dangling, c.EmptySet = true, true
+					}
+				}
+			}
+			old := x.Owner.Leaf[x.F.Name]
+			for _, alt := range []model.Val{{K: old.K, S: "no-such-target", I: 77, U: 77}, {K: old.K, S: "zz", I: 3, U: 3}, {K: old.K, S: "q", I: 101, U: 101}} {
+				if c.EmptySet || !(old.K == model.KStr || old.K.Signed() || old.K.Unsigned()) {
+					break
+				}
+				x.Owner.Leaf[x.F.Name] = alt
+				if len(model.Dangling(c.M)) > 0 {
+					c.Dangling = true
+					break
+				}
+				x.Owner.Leaf[x.F.Name] = old
+			}
+		}
 	}
 	c.Procs = rapid.SampledFrom([]int{1, 2, 3, 4, 8, 16}).Draw(rt, "gomaxprocs")
 	// candidate paths: leaves, structs, whole lists, wildcard forms, absent paths
@@ -233,6 +285,41 @@ func genROCase(rt *rapid.T) *roCase {
 		c.Ops = append(c.Ops, ops)
 	}
 	return c
+}
+
+// dropListHolding removes the whole list that has an entry whose node is owner.
+func dropListHolding(n, owner *model.Node) bool {
+	if n == nil {
+		return false
+	}
+	for name, l := range n.List {
+		for _, e := range l {
+			if e.N == owner {
+				delete(n.List, name)
+				return true
+			}
+		}
+	}
+	for _, l := range n.List {
+		for _, e := range l {
+			if dropListHolding(e.N, owner) {
+				return true
+			}
+		}
+	}
+	for _, c := range n.Cont {
+		if dropListHolding(c, owner) {
+			return true
+		}
+	}
+	for _, l := range n.UList {
+		for _, e := range l {
+			if dropListHolding(e, owner) {
+				return true
+			}
+		}
+	}
+	return false
 }
 
 func (c *roCase) describe() string {
@@ -483,6 +570,12 @@ func (c *roCase) classes() []string {
 	}
 	if leafCount(c.M) >= 20 {
 		cl = append(cl, "tree:>=20-leaves")
+	}
+	if c.Dangling {
+		cl = append(cl, "tree:dangling-leafref")
+	}
+	if c.EmptySet {
+		cl = append(cl, "tree:leafref-into-empty-set")
 	}
 	return cl
 }
